@@ -35,6 +35,12 @@ def param(lf):
     """linear form -> a number (python float/int), a bare symbol or a sympy expression"""
     c, k = lf["c"], lf["k"]
     nz = [i for i in range(3) if c[i] != 0]
+    if lf.get("d"):
+        # the monomial d*a*b in the specification's units: the real parameter is d*a*b/(pi/2)
+        e = lf["d"] * sym(1) * sym(2) / H
+        for i in nz:
+            e = e + c[i] * sym(i + 1)
+        return e + k * H if k else e
     if not nz:
         return k * H if k else 0
     if len(nz) == 1 and c[nz[0]] == 1 and k == 0:
@@ -163,7 +169,7 @@ def check_case(ctx, c):
                     pass
         return out
     if c["chained"]:
-        return out  # a map whose values mention its own keys: outside the domain (bare symbols and expressions read it differently)
+        return out  # several keys, some mentioned by the map's values: outside the domain (bare symbols and expressions read it differently)
     if bound.n_qubits != pre.n_qubits or len(bound.operations) != len(pre.operations):
         out.append(("shape", "%s changed the width or the number of operations" % desc))
         return out
@@ -177,9 +183,9 @@ def check_case(ctx, c):
                 out.append(("params:value", "%s: parameter %d of operation %d is %s, substitution gives %s" % (desc, j, i, rp, param(lf))))
             keys = {e["s"] for e in c["m"]}
             prelf = c["pre"][i]["ps"][j]
-            if not any(prelf["c"][s - 1] for s in keys if s <= 3) and not (rp is pop.params[j] or rp == pop.params[j]):
+            if not any(prelf["c"][s - 1] or (prelf.get("d") and s in (1, 2)) for s in keys if s <= 3) and not (rp is pop.params[j] or rp == pop.params[j]):
                 out.append(("params:untouched", "%s: parameter %d of operation %d (%s) does not depend on the map but became %s" % (desc, j, i, pop.params[j], rp)))
-        want_free = sorted({NAMES[s + 1] for lf in spec_op["ps"] for s in range(3) if lf["c"][s]})
+        want_free = sorted({NAMES[s + 1] for lf in spec_op["ps"] for s in range(3) if lf["c"][s] or (lf.get("d") and s in (0, 1))})
         if [str(s) for s in bop.free_symbols] != want_free:
             out.append(("free:operation", "%s: operation %d reports free symbols %s, its parameters depend on %s" % (desc, i, list(bop.free_symbols), want_free)))
         g = getattr(bop, "gate", None)
@@ -232,6 +238,20 @@ def check_case(ctx, c):
             M2 = cc.to_np(sympy.Matrix(pg.matrix).subs(comp_all, simultaneous=True)) if comp_all else cc.to_np(pg.matrix)
             if not close(M1, M2, 1e-8):
                 out.append(("matrix:gate", "%s: matrix of operation %d bound first differs from the symbolic matrix substituted afterwards (at %s)" % (desc, i, dict(zip("abc", sg)))))
+    # the PARTIALLY bound circuit evaluated as it is (numeric and still-symbolic factors side by side), the remaining symbols
+    # substituted afterwards
+    if not out and not has_phase and bound.free_symbols:
+        for k, sg in enumerate(ASSIGN):
+            total = {sym(i + 1): sg[i] * H for i in range(3)}
+            try:
+                ub = bound.to_unitary()
+                Ub = cc.to_np(sympy.Matrix(ub.tolist() if isinstance(ub, np.ndarray) else ub).subs(total, simultaneous=True))
+                if not close(Ub, mat(c["U"][k]), 1e-8):
+                    out.append(("matrix:partial", "%s: the partially bound circuit evaluated symbolically, remaining symbols substituted afterwards (at %s), differs from the specification's matrix" % (desc, dict(zip("abc", sg)))))
+                    break
+            except Exception as ex:
+                out.append(("matrix:partial-raises", "%s: to_unitary() of the partially bound circuit raised %s: %s" % (desc, type(ex).__name__, str(ex)[:150])))
+                break
     # the other order of events: by now every gate of `pre` has been evaluated symbolically (its matrix may be cached);
     # binding the SAME objects again must still give gates that evaluate at the bound parameters
     if not out:
@@ -241,6 +261,12 @@ def check_case(ctx, c):
             try:
                 full = again.bind(total)
                 ok = close(numeric_unitary(full), mat(c["U"][k]), 1e-8)
+                # the gates of the circuit bound the second time, evaluated while they still have free symbols
+                for aop, fop in zip(again.operations, full.operations):
+                    ag = getattr(aop, "gate", None)
+                    if ag is not None and ag.free_symbols:
+                        if not close(cc.to_np(sympy.Matrix(ag.matrix).subs(total, simultaneous=True)), cc.to_np(fop.gate.matrix), 1e-8):
+                            ok = False
                 for bop in full.operations:
                     g = getattr(bop, "gate", None)
                     if g is not None and getattr(sympy.Matrix(g.matrix), "free_symbols", None):
@@ -251,6 +277,25 @@ def check_case(ctx, c):
             if not ok:
                 out.append(("evaluated-then-bound", "%s after the circuit had been evaluated symbolically: the bound circuit at %s differs from the specification's matrix (or a bound gate's matrix still mentions symbols)" % (desc, dict(zip("abc", sg)))))
                 break
+    # the caller's dictionary is the caller's: it is refilled with another map (same object) and handed to the same circuit again -
+    # the result is what a fresh circuit gives for a fresh dictionary holding that map
+    for mm in ((m, dict(m)) if not out else ()):     # the very object that was bound first, then an equal copy of it
+        saved = dict(mm)
+        r1 = pre.bind(mm)
+        m2 = {k_: (0.5 + 0.25 * j_) for j_, k_ in enumerate(mm)}
+        m2.pop(next(iter(m2))) if len(m2) > 1 else None
+        mm.clear()
+        mm.update(m2)
+        try:
+            r2 = pre.bind(mm)
+            mm.clear()
+            mm.update(saved)
+            fresh = real_circuit(c["pre"]).bind(dict(m2))
+            same = len(r2.operations) == len(fresh.operations) and all(len(x.params) == len(y.params) and all(params_equal(p_, q_) for p_, q_ in zip(x.params, y.params)) for x, y in zip(r2.operations, fresh.operations))
+            if not same or [str(s_) for s_ in r2.free_symbols] != [str(s_) for s_ in fresh.free_symbols]:
+                out.append(("rebind:refilled-map", "%s, then the same dictionary object refilled with %s and bound to the same circuit again: parameters %s, a fresh circuit and dictionary give %s" % (desc, {str(k_): v_ for k_, v_ in m2.items()}, [op.params for op in r2.operations], [op.params for op in fresh.operations])))
+        except Exception as ex:
+            out.append(("rebind:raises", "%s, then the same dictionary refilled and bound again: %s: %s" % (desc, type(ex).__name__, str(ex)[:150])))
     # several partial steps = one step with the composed map
     if c["nhist"] == 2 and not out:
         first = real_circuit(c["first"])
@@ -260,7 +305,7 @@ def check_case(ctx, c):
         for s, v in m2.items():
             both.setdefault(s, v)
         def is_chained(mm):
-            return any(isinstance(v, sympy.Basic) and (v.free_symbols & set(mm)) for v in mm.values())
+            return len(mm) > 1 and any(isinstance(v, sympy.Basic) and (v.free_symbols & set(mm)) for v in mm.values())
 
         if not (is_chained(m1) or is_chained(m2) or is_chained(both)):
             one = first.bind(both)
@@ -272,10 +317,14 @@ def check_case(ctx, c):
 
 def run(ctx):
     quick = ctx.tier == "quick"
-    allops = "{1, 2, 3, 4, 5, 6, 7, 8, 9, 10, 11, 12, 13, 14, 15, 16}"
-    allmaps = "{1, 2, 3, 4, 5, 6, 7, 8, 9}"
+    allops = "{1, 2, 3, 4, 5, 6, 7, 8, 9, 10, 11, 12, 13, 14, 15, 16, 17, 18}"
+    allmaps = "{1, 2, 3, 4, 5, 6, 7, 8, 9, 10, 11, 12, 13, 14}"
     if quick:
-        runs = [dict(MaxOps=1, MaxBinds=2, OpSel=allops, MapSel=allmaps), dict(MaxOps=2, MaxBinds=1, OpSel="{1, 2, 3, 4, 5, 7, 8, 10, 12, 15, 16}", MapSel=allmaps)]
+        runs = [dict(MaxOps=1, MaxBinds=2, OpSel="{1, 2, 3, 4, 5, 7, 8, 9, 10, 11, 13, 14, 17}", MapSel="{1, 3, 5, 6, 8, 10, 11}"), dict(MaxOps=1, MaxBinds=1, OpSel=allops, MapSel=allmaps),
+                dict(MaxOps=2, MaxBinds=1, OpSel="{1, 2, 3, 4, 7, 8, 10, 12, 15, 16}", MapSel="{1, 3, 5, 6, 7, 9, 10, 12}"),
+                dict(MaxOps=2, MaxBinds=1, OpSel="{1, 5, 17, 18}", MapSel="{1, 2, 4, 13, 14}"),
+                # three operations: a partial map leaves numeric neighbours (which do not commute) next to a still-symbolic gate
+                dict(MaxOps=3, MaxBinds=1, OpSel="{3, 6, 14, 16}", MapSel="{1, 2}")]
     else:
         runs = [dict(MaxOps=2, MaxBinds=2, OpSel=allops, MapSel=allmaps), dict(MaxOps=3, MaxBinds=1, OpSel="{1, 2, 3, 4, 5, 7, 8, 10, 12, 15, 16}", MapSel=allmaps)]
     ctx.bounds = {"run%d" % i: r for i, r in enumerate(runs)}
@@ -299,7 +348,7 @@ def run(ctx):
         ctx.count({"k": "bind", "circuit": show(c["pre"]), "map": c["m"], "step": c["nhist"]}, kind="refused" if c["out"] != "ok" else ("chained map (outside the domain)" if c["chained"] else "bind step %d" % c["nhist"]))
         for key, msg in fails:
             ctx.violation(key, msg, c)
-    ctx.assumptions.append("maps whose values mention their own keys are outside the domain: for them bare-symbol parameters (dictionary lookup) and expression parameters (sympy's sequential dictionary substitution) read the map differently, and the statement does not say which reading is meant")
+    ctx.assumptions.append("maps with several keys whose values mention keys are outside the domain (one-key maps such as theta -> theta + pi/2 are inside): for them bare-symbol parameters (dictionary lookup) and expression parameters (sympy's sequential dictionary substitution) read the map differently, and the statement does not say which reading is meant")
     ctx.assumptions.append("parameters are linear forms over three symbols with numeric parts on the pi/2 grid (exact matrices); the custom gate's formal parameters carry the same names as circuit symbols, so name capture is visible")
 
 
